@@ -491,6 +491,20 @@ def liftX {α} (x : X α) : RM α := fun s => match x with
 
 /-! ## `visit_Assign`, `visit_AugAssign`, `visit_AnnAssign` -/
 
+/-- the `Environment` update at the head of `visit_Assign` -/
+def envUpdate (target : String) (value : SExp) : RM Unit :=
+  match value with
+  | .const c => setConstant target (.raw c)
+  | .name m => do if (← get).known m then copyType m target else setType target .unknown
+  | .tuple _ | .list _ => do
+    let v' ← liftX (visitE value)
+    setConstantNode target v'
+  | _ => setType target .unknown
+
+def isConstE : SExp → Bool
+  | .const _ => true
+  | _ => false
+
 /-- `visit_Assign` on `targets = value` -/
 def visitAssign (targets : List SExp) (value : SExp) : RM (List SStmt) := do
   let target ← match targets with
@@ -498,16 +512,8 @@ def visitAssign (targets : List SExp) (value : SExp) : RM (List SStmt) := do
     | _ :: _ => throw (.exc "AttributeError" "object has no attribute 'id'")
     | [] => throw (.outside "assignment without a target")
   let wasKnown := (← get).known target
-  match value with
-  | .const c => setConstant target (.raw c)
-  | .name m => if (← get).known m then copyType m target else setType target .unknown
-  | .tuple _ | .list _ => do
-    let v' ← liftX (visitE value)
-    setConstantNode target v'
-  | _ => setType target .unknown
-  let present := (namesE value).contains target
-  let isConst := match value with | .const _ => true | _ => false
-  if present && wasKnown && !isConst then
+  envUpdate target value
+  if (namesE value).contains target && wasKnown && !isConstE value then
     note "self-assign"
     let v' ← liftX (visitE value)
     let tmp := SExp.name ("__" ++ target)
@@ -672,6 +678,19 @@ def isGuardAssign : SStmt → Bool
   | .assign [.name t] _ => isIfTarg t
   | _ => false
 
+/-- evidence only: which shapes of `if` were rewritten -/
+def noteIf (e b' e' : List SStmt) : RM Unit := do
+  note "if"
+  if !e.isEmpty then note "else"
+  match e with
+  | [.ifs _ _ _] => note "elif"
+  | _ => pure ()
+  if b'.any isGuardAssign then note "if-in-if-body"
+  if e'.any isGuardAssign then note "if-in-else"
+
+def noteFor (e : List SStmt) : RM Unit := do
+  if !e.isEmpty then note "for-else-dropped"
+
 mutual
 /-- `ASTRewriter.visit` on a statement; `θ` = the loop-variable replacements of the enclosing loops -/
 def rwS (θ : Subst) : SStmt → RM (List SStmt)
@@ -682,15 +701,9 @@ def rwS (θ : Subst) : SStmt → RM (List SStmt)
   | .ret (some v) => do pure [.ret (some (← liftX (visitE (substE θ v))))]
   | .expr v => do pure [.expr (← liftX (visitE (substE θ v)))]
   | .ifs c b e => do
-    note "if"
-    if !e.isEmpty then note "else"
-    match e with
-    | [.ifs _ _ _] => note "elif"
-    | _ => pure ()
     let b' ← rwSs θ b
     let e' ← rwSs θ e
-    if b'.any isGuardAssign then note "if-in-if-body"
-    if e'.any isGuardAssign then note "if-in-else"
+    noteIf e b' e'
     let g := "_iftarg" ++ (← nextUniq)
     let c' ← liftX (visitE (substE θ c))
     let st ← get
@@ -698,7 +711,7 @@ def rwS (θ : Subst) : SStmt → RM (List SStmt)
     let ge ← liftX (guardElse st.known g e')
     pure (.assign [.name g] c' :: (gb ++ ge))
   | .for_ t it b e => do
-    if !e.isEmpty then note "for-else-dropped"
+    noteFor e
     let vals ← forIter (substE θ it)
     forLoop (substE θ t) (fun v val => rwSs (θ ++ [(v, val)]) b) vals
   | .other w => throw (.outside s!"statement {w}")
